@@ -301,6 +301,19 @@ def handle (op : String) (fs : List (String × String)) : String :=
       else if op == "gnames.unique" then yn (uniqueP out)
       else if op == "gnames.safe" then yn (out.all safeName)
       else if op == "gnames.notdef" then yn (notdefP out)
+      else if op == "gnames.cffkept" then
+        -- MakeSimple analogue of `kept` (C20_makesimple_kept): valid first-occurrence names stay
+        match (getField fs "in").bind String.toNat? with
+        | none => "bad-case"
+        | some inn =>
+          match (getField fs "init").bind (parseNames inn),
+              (getField fs "invalid").bind (fun s => parseNames (if s.isEmpty then 0 else 1) s) with
+          | some init, some inv =>
+            yn ((List.range init.length).all fun i =>
+              let nm := init.getD i []
+              if i = 0 ∨ nm = [] ∨ inv.contains nm ∨ nm = notdef ∨ ((init.take i).drop 1).contains nm then true
+              else out.getD i [] == nm)
+          | _, _ => "bad-case"
       else if op == "gnames.kept" then
         match (getField fs "in").bind String.toNat? with
         | none => "bad-case"
